@@ -443,7 +443,11 @@ pub async fn clear_buffered_meta_loop(
     while let Some((actor_id, versions)) = rx_partials.recv().await {
         let pool = agent.pool().clone();
         let self_actor_id = agent.actor_id();
+        #[cfg(feature = "verif")]
+        let verif_pending = klukai_types::verif::PendingGuard::new();
         tokio::spawn(async move {
+            #[cfg(feature = "verif")]
+            let _verif_pending = verif_pending;
             loop {
                 let res = {
                     let mut conn = pool.write_low().await?;
